@@ -21,6 +21,9 @@ func TestVerifC18ServerSelectsEachShare(t *testing.T) {
 	st := vfNewStats(t, "C18")
 	rapid.Check(t, func(rt *rapid.T) {
 		src := vfGenTLS13Src(rt)
+		if alt, ok := vf18HybridCaptureSrc(rt); ok {
+			src = alt
+		}
 		sni := vfGenDNSName(rt, "sni")
 		probe, err := vfPrepareClient(src, sni, 1, nil)
 		if err != nil {
@@ -79,11 +82,47 @@ func TestVerifC18ServerSelectsEachShare(t *testing.T) {
 	})
 }
 
+// vf18HybridCaptureSrc: in one case out of five the source is a fingerprinted capture (as is, or with permuted
+// extensions) of a parrot that sends a hybrid (ML-KEM / Kyber draft) key share: the captured key material must not
+// survive in the spec.
+func vf18HybridCaptureSrc(rt *rapid.T) (vfClientSrc, bool) {
+	if rapid.IntRange(0, 4).Draw(rt, "hybrid_capture") != 0 {
+		return vfClientSrc{}, false
+	}
+	var hybrid []vfParrot
+	for _, p := range vfParrots {
+		spec, err := UTLSIdToSpec(p.ID)
+		if err != nil {
+			continue
+		}
+		for _, e := range spec.Extensions {
+			if ks, ok := e.(*KeyShareExtension); ok {
+				for _, k := range ks.KeyShares {
+					if k.Group == X25519MLKEM768 || k.Group == X25519Kyber768Draft00 {
+						hybrid = append(hybrid, p)
+					}
+				}
+			}
+		}
+	}
+	if len(hybrid) == 0 {
+		return vfClientSrc{}, false
+	}
+	p := hybrid[rapid.IntRange(0, len(hybrid)-1).Draw(rt, "hybrid_parrot")]
+	if rapid.Bool().Draw(rt, "hybrid_capture_reordered") {
+		return vfFingerprintedReorderedSrc(p, rapid.Uint64().Draw(rt, "hybrid_capture_order"))
+	}
+	return vfFingerprintedSrc(p)
+}
+
 // Sizes per group; no repetition of shares, client randoms and session ids across connections.
 func TestVerifC18Freshness(t *testing.T) {
 	st := vfNewStats(t, "C18")
 	rapid.Check(t, func(rt *rapid.T) {
 		src := vfGenClientSrc(rt, "src")
+		if alt, ok := vf18HybridCaptureSrc(rt); ok {
+			src = alt
+		}
 		sni := vfGenDNSName(rt, "sni")
 		n := rapid.IntRange(3, 8).Draw(rt, "n")
 		useCryptoRand := rapid.Bool().Draw(rt, "cryptorand")
